@@ -217,7 +217,7 @@ def soup_cases(seed, n, maxlen=24):
     return cases
 
 
-_BYTE_ALPHA = "ab_ 09\n\t\"'`\\/*.+-<=&|^%!~:;,()[]{}xXeEpPiI\u00e9\u65e5\U0001F600\r\ufeff\x00\x7f"
+_BYTE_ALPHA = "ab_ 09\n\t\"'`\\/*.+-<=&|^%!~:;,()[]{}xXeEpPiI\u00e9\u65e5\U0001F600\r\ufeff\x00\x7f\u0663\uff12\U0001D7CE"
 
 
 def bytes_cases(seed, n, maxlen=40):
@@ -228,6 +228,8 @@ def bytes_cases(seed, n, maxlen=40):
         s = "".join(rng.choice(_BYTE_ALPHA) for _ in range(ln))
         if rng.random() < 0.5:
             s = "package p;" + s
+        elif rng.random() < 0.5:
+            s = "package p\n\nvar x = " + s
         cases.append(Case(s, "F-bytes"))
     return cases
 
@@ -1009,6 +1011,14 @@ def docs_cases(seed, n):
         for di in range(nd):
             kind = rng.choice(["func", "var", "const", "type", "vargroup", "typegroup", "struct", "funcbody"])
             name = "n%d_%d" % (ci, di)
+            if rng.random() < 0.2:
+                # multi-line tokens with multi-byte characters before later declarations (line table bookkeeping)
+                expected.append(("DeclVar", []))
+                expected.append(("VarSpec", before()))
+                lines.append("var r%d_%d = `é日本語 \U0001F600" % (ci, di))
+                lines.append("\u4f60\u597d` /* 注释")
+                lines.append("\u3000 */")
+                lines.append("")
             if kind in ("func", "funcbody"):
                 d = before()
                 expected.append(("FuncDecl", d))
@@ -1054,6 +1064,11 @@ def docs_cases(seed, n):
             if rng.random() < 0.4:
                 lines.append("")
         src = "\n".join(lines) + ("\n" if rng.random() < 0.8 else "")
+        if ci % 3 == 1:
+            # CRLF line ends: a general comment that spans lines keeps its \r
+            src = src.replace("\n", "\r\n")
+            # (a line comment runs up to the newline character: in a CRLF file its text ends in \r)
+            expected = [(t, [x.replace("\n", "\r\n") + ("\r" if x.startswith("//") else "") for x in d]) for t, d in expected]
         cases.append(Case(src, "F-docs", expected=expected))
     return cases
 
@@ -1112,4 +1127,53 @@ def position_directed_cases():
     for sn in POS_SNIPPETS:
         for pre in ("package p\n", "package 日本語\n// é日本語 \U0001F600\nvar x = \"é日本\" /* \U0001F600 */\n\t", "package p\r\n\r\n\t"):
             out.append(Case(pre + sn + "\n", "F-pos-directed"))
+    return out
+
+
+# ------------------------------------------------------------------ text-level single edits and layout injection on snippets
+
+EDIT_SNIPPETS = REREAD_SNIPPETS + [
+    "type S struct {\n\ta, b [N]int\n\tc, d M[K, V]\n\te, f []T\n\tg, h *T `tag`\n\ti, j map[K]V\n\tk, l chan<- T\n\tU[int]\n}",
+    "func f(a, b [N]int, c, d M[K, V], e ...T) (x, y [2]int) {\n\treturn\n}",
+    "func f() {\n\tx, ok := <-ch\n\ta, b = b, a\n\tv, ok := m[k]\n\tfor i, v := range s {\n\t}\n\tswitch a, b := f(); a {\n\t}\n\tcase1: a, b++\n}",
+    "type I interface {\n\tM()\n\tStringer }\ntype J interface {\n\tint }",
+    "type S[P *E | ~G] struct{ p P }\ntype T[P (E) | ~G, Q *E | []byte] int\ntype U[P *E,] int\ntype V [N * M]int",
+    "var c = chan (<-chan int)(nil)\nvar d []chan (<-chan int)\nvar e chan<- (chan<- int)\nvar f = <-(<-chan int)(c)",
+]
+
+
+def text_mutants(snippets=None):
+    """every single-token deletion, duplication and adjacent swap of each snippet (text level, tokens by the spec lexer)"""
+    out = []
+    for sn in (snippets or EDIT_SNIPPETS):
+        src0 = "package p\n\n" + sn + "\n"
+        toks = [(p, t) for p, k, t in spec_lex(src0) if p is not None and k != "C"]
+        for i, (p, t) in enumerate(toks):
+            e = p + len(t)
+            out.append(Case(src0[:p] + src0[e:], "F-edit-del", note=sn[:24]))
+            out.append(Case(src0[:e] + " " + t + src0[e:], "F-edit-dup", note=sn[:24]))
+            if i + 1 < len(toks):
+                p2, t2 = toks[i + 1]
+                out.append(Case(src0[:p] + t2 + " " + t + src0[p2 + len(t2):], "F-edit-swap", note=sn[:24]))
+    return out
+
+
+def layout_injection_cases(snippets=None):
+    """a newline / blank / comment in every gap of each snippet, kept only when the token sequence after semicolon
+    insertion (spec lexer) is unchanged; expected: the same tree as the snippet itself (family index in .prog)"""
+    out = []
+    for si, sn in enumerate(snippets or EDIT_SNIPPETS):
+        src0 = "package p\n\n" + sn + "\n"
+        key0 = [(k, t) for p, k, t in spec_lex(src0) if k != "C"]
+        out.append(Case(src0, "F-layout-base", prog=si, style="canonical"))
+        cuts = [p for p, k, t in spec_lex(src0) if p is not None] + [len(src0)]
+        for c in cuts:
+            for ins in ("\n", "\n\n\t", " ", "/**/", "// c\n", "\r\n"):
+                v = src0[:c] + ins + src0[c:]
+                try:
+                    if [(k, t) for p, k, t in spec_lex(v) if k != "C"] != key0:
+                        continue
+                except ValueError:
+                    continue
+                out.append(Case(v, "F-layout-inject", prog=si, style="inject"))
     return out
